@@ -105,7 +105,7 @@ def k_ignored(name, n, t):
            family='K:C10 %s n=%d: bar path (ignored fields any f64 incl. NaN/inf) == scalar path on %s, %d steps' % (name, n, 'ohlcv'[fi], t),
            bounds=dict(engine='K', indicator=name, n=n, t=t, read_field='every finite f64' if name in ('MIN', 'MAX') else 'symbolic over {1.5, 0.1, 1000.25}', ignored_fields='every f64 bit pattern'))
     k = KOps(b)
-    k.new('a', name, [n]); k.new('s', name, [n])
+    k.new('a', name, specs(name, n)); k.new('s', name, specs(name, n))
     exact = name in ('MIN', 'MAX')
     TABX = [1.5, 0.1, 1000.25]
     for i in range(t):
